@@ -303,6 +303,17 @@ def run_shard(ctx):
                     bad = ('pushed-query-not-executable', {'error': str(e)[:200], 'state': st})
                     break
                 acc.count('compared')
+                # the step's query as the tree's own printer writes it (what an integration is handed when nothing renders it): where
+                # the reference engine reads that text, it denotes the same rows
+                try:
+                    own_text = str(steps[0].query)
+                    n3, r3 = run(db2, own_text)
+                    acc.count('own_text_executed')
+                    if (r3 != r2) if ordered else (norm(r3) != norm(r2)):
+                        bad = ('own-text-of-the-step-query-denotes-other-rows', {'own_text': own_text[:300], 'expected': repr(r1)[:300], 'got': repr(r3)[:300], 'state': st})
+                        break
+                except sqlite3.Error:
+                    acc.count('own_text_not_read_by_reference_engine')
                 if ordered:
                     if r1 != r2:
                         bad = ('order-differs' if norm(r1) == norm(r2) else 'rows-differ', {'expected': repr(r1)[:300], 'got': repr(r2)[:300], 'state': st})
